@@ -16,7 +16,7 @@ var c18Copy = []string{"Set", "Neg", "Abs", "Copy", "SetMantExp", "MantExp", "Go
 
 // operations that read no shared Decimal but share the library's package-level
 // tables and the scratch pool with everybody else
-var c18Private = []string{"Parse", "SetInt", "SetRat", "SetFloat64", "SetFloat", "UnmarshalText", "Scan"}
+var c18Private = []string{"Parse", "SetInt", "SetRat", "SetFloat64", "SetFloat", "UnmarshalText", "Scan", "GobDecode", "GobDecode", "SetUint64"}
 var c18Get = []string{"Cmp", "Sign", "IsInt", "MinPrec", "Attrs", "Int", "Int64", "Uint64", "Rat", "Float", "Float32", "Float64",
 	"Text", "Append", "Format", "String", "GobEncode", "MarshalText", "MarshalJSON"}
 
@@ -126,7 +126,7 @@ func genC18(seed uint64, tier string) *Scenario {
 			}
 			fillParams(r, &op)
 			switch op.Name {
-			case "Parse", "SetInt", "SetRat", "SetFloat64", "SetFloat", "UnmarshalText", "Scan":
+			case "Parse", "SetInt", "SetRat", "SetFloat64", "SetFloat", "UnmarshalText", "Scan", "GobDecode", "SetUint64":
 				genParams(r, sc, &op)
 				if op.Name == "Parse" && r.chance(0.6) {
 					// non-decimal literals go through pow2 -> Mul/Quo -> the scratch pool
